@@ -45,13 +45,14 @@ def run(rep):
     if quick:
         threads = [1, 2, 3, 16]
         concs = [1, 3, 9]
-        optsets = [("-", "png"), ("fast=0,filters=0+1+4+9", "png"), ("-", "apng")]
+        optsets = [("-", "png"), ("fast=0,filters=0+1+4+9", "png"), ("-", "apng"), ("timeout=0", "png"), ("fast=0,filters=0+1+4+9,timeout=0", "apng")]
         seeds = [0, 1 + rng.randrange(1 << 30)]
         watchdog = 60
     else:
         threads = [1, 2, 3, 4, 5, 8, 12, 16]
         concs = [1, 2, 5, 16, 64]
-        optsets = [("-", "png"), ("fast=0,filters=0+1+4+9", "png"), ("preset=5", "png"), ("-", "apng"), ("fast=0,filters=0+5", "apng")]
+        optsets = [("-", "png"), ("fast=0,filters=0+1+4+9", "png"), ("preset=5", "png"), ("-", "apng"), ("fast=0,filters=0+5", "apng"),
+                   ("timeout=0", "png"), ("fast=0,filters=0+1+4+9,timeout=0", "png"), ("timeout=0", "apng")]
         seeds = [0] + [1 + rng.randrange(1 << 30) for _ in range(3)]
         watchdog = 600
     tmp = tempfile.mkdtemp(prefix="oxiverif-c16-")
@@ -88,6 +89,22 @@ def run(rep):
         from concurrent.futures import ThreadPoolExecutor
         with ThreadPoolExecutor(max_workers=4) as ex:
             results = list(ex.map(work, jobs))
+        # the shared bound (AtomicMin) under contention, against its sequential specification (fetch_min of Model/Evaluate.v)
+        am_jobs = [(th, 150 if quick else 3000, 200, 1 + rng.randrange(1 << 30)) for th in ([2, 4, 8, 16] if quick else [2, 3, 4, 6, 8, 12, 16, 32])]
+        for th, rounds, calls, sd in am_jobs:
+            cmd = [exe, "atomicmin", str(th), str(rounds), str(calls), str(sd)]
+            rep.evaluations += 1
+            rep.count("atomicmin-contention")
+            desc = {"cmd": " ".join(["poolrun"] + cmd[1:]), "cases": []}
+            try:
+                p = subprocess.run(cmd, stdout=subprocess.PIPE, stderr=subprocess.PIPE, timeout=watchdog)
+                o = p.stdout.decode(errors="replace").strip()
+                if p.returncode != 0 or not o.startswith("ok "):
+                    rep.violation("C16:atomicmin-spec", f"the shared best-size bound does not behave as an atomic minimum under contention ({th} threads): {o or p.stderr.decode(errors='replace')[-200:]}", desc)
+                else:
+                    rep.nontriv(("atomicmin", th))
+            except subprocess.TimeoutExpired:
+                rep.violation("C16:hang:atomicmin", f"a set_min call on the shared best-size bound did not return within {watchdog}s ({th} threads, {rounds} rounds of {calls} calls each)", desc)
         mc = vlib.Cases()
         for job, rc, out, err in results:
             site, th, cc, o, kind, sd = job
